@@ -46,7 +46,7 @@ impl Property for C04 {
         "C04"
     }
     fn rule(&self) -> &'static str {
-        "profile `feedback`: programs that read outputs in row entries, let, loop bounds, while and ite conditions, with C rows (both driver types, so forwarded mid-clock calls of the defaulting driver must stay invisible) and X rows, 0-1 virtual signals; variables and counters named like outputs; device answers differ on every call; with probability 1/4 Z/X answers, with probability 1/8 a layout that omits a read signal. Every row statement carries a tag and three 64-bit probe inputs `(Q)` reading a device output that cannot be a variable at that row, or a variable that shadows an output. Oracle (self-consistent, from the recording driver's own log): the probe value of every item equals the value the driver returned for Q in the latest call made for a checked item (or by the constructor) before the source row was evaluated; a Z/X answer there means the row must be an error item, not a row; a shadowing variable's probe equals vars(); an omitted read signal => constructor error after exactly one call and no row. Non-trivial: a device probe was checked after >= 2 output-reading calls that returned different values for it, or after a mid-clock write, or a constructor refusal / Z-X error was due; distinct by source + signals + driver."
+        "profile `feedback`: programs that read outputs in row entries, let, loop bounds, while and ite conditions, with C rows (both driver types, so forwarded mid-clock calls of the defaulting driver must stay invisible) and X rows, 0-1 virtual signals; variables and counters named like outputs; device answers differ on every call; with probability 1/4 Z/X answers, with probability 1/4 a malformed answer to one call (an entry repeated or two swapped; that row is an error item and the caller goes on), with probability 1/8 a layout that omits a read signal. Every row statement carries a tag and three 64-bit probe inputs `(Q)` reading a device output that cannot be a variable at that row, or a variable that shadows an output. Oracle (self-consistent, from the recording driver's own log): the probe value of every item equals the value the driver returned for Q in the latest call made for a checked item (or by the constructor) before the source row was evaluated; a Z/X answer there means the row must be an error item, not a row; a shadowing variable's probe equals vars(); an omitted read signal => constructor error after exactly one call and no row. Non-trivial: a device probe was checked after >= 2 output-reading calls that returned different values for it, or after a mid-clock write, or a constructor refusal / Z-X error was due; distinct by source + signals + driver."
     }
     fn cases(&self, tier: Tier) -> u64 {
         match tier {
@@ -84,6 +84,13 @@ impl Property for C04 {
         );
         if dch.chance(1, 4) {
             spec.zx = 24;
+        }
+        // in a quarter of the cases the driver's answer to one call is malformed (an entry
+        // repeated, or two entries swapped - every output is still reported): that row is an
+        // error item, the caller goes on, and what later expressions see is decided as before
+        if dch.chance(1, 4) {
+            let p = dch.upto(8);
+            spec.deviate_at = Some((1 + dch.upto(10), if dch.chance(1, 2) { Deviation::Duplicate(p) } else { Deviation::Swap(p, p + 1 + dch.upto(3)) }));
         }
         let mut omitted = None;
         if !must.is_empty() && dch.chance(1, 8) {
